@@ -74,7 +74,8 @@ def cases(tier, seed):
                             out.append(dict(st, cls="mask-asymmetric", pos=[b, i, j], repr=rep, total=2))
     # (e) defective eigenvectors, (f) (R,L) in Hermitian mode, (h) both subspace arguments, (i) option conflicts
     for sizes in ((1, 1), (2, 1), (1, 2), (1, 1, 1)):
-        for defect in ("scaled", "overlap", "nonorthogonal", "biorth-broken", "RL-in-hermitian", "both-args", "fd-custom-solver", "fd-implicit", "ndarray-fd-multiblock"):
+        for defect in ("scaled", "overlap", "nonorthogonal", "biorth-broken", "RL-in-hermitian", "both-args", "fd-custom-solver", "fd-implicit", "ndarray-fd-multiblock",
+                       "overlap-e0", "overlap-e0-pairs", "RL-in-hermitian-last", "RL-in-hermitian-last-dual"):
             for rep in ("dense", "sympy"):
                 out.append(dict(sizes=list(sizes), cls="options", defect=defect, repr=rep, total=2, hermitian=defect != "biorth-broken"))
     # (g) non-Hermitian symbolic term at each order in Hermitian mode
@@ -364,6 +365,34 @@ def run_options(case):
         vecs[-1] = vecs[-1].copy()
         vecs[-1][:, 0] = vecs[-1][:, 0] + 0.5 * vecs[0][:, 0]
         kwargs["subspace_eigenvectors"] = tuple(conv(v.astype(complex)) for v in vecs)
+    elif defect in ("overlap-e0", "overlap-e0-pairs"):
+        # orthonormal inside each subspace, but the last subspace is tilted towards the zero-energy
+        # state of the first one: the projected H_0 stays block diagonal, only the overlap check can see it
+        v = vecs[-1].copy()
+        v[:, 0] = v[:, 0] + 0.5 * eye[:, 0]
+        v[:, 0] /= np.linalg.norm(v[:, 0])
+        vecs[-1] = v
+        if defect == "overlap-e0":
+            kwargs["subspace_eigenvectors"] = tuple(conv(x.astype(complex)) for x in vecs)
+        else:
+            if sym:
+                return [], False, "n/a"
+            kwargs["hermitian"] = False
+            pairs = []
+            for x in vecs:
+                L = x @ np.linalg.inv(x.conj().T @ x)
+                pairs.append((x.astype(complex), L.astype(complex)))
+            kwargs["subspace_eigenvectors"] = tuple(pairs)
+    elif defect in ("RL-in-hermitian-last", "RL-in-hermitian-last-dual"):
+        if sym:
+            return [], False, "n/a"
+        last = vecs[-1].astype(complex)
+        if defect.endswith("dual"):
+            R_ = last * 2.0  # rescaled vectors with their dual basis: L† R = 1 but L != R
+            L_ = last / 2.0
+        else:
+            R_, L_ = last, last.copy()
+        kwargs["subspace_eigenvectors"] = tuple([x.astype(complex) for x in vecs[:-1]] + [(R_, L_)])
     elif defect == "biorth-broken":
         pairs = []
         for b, v in enumerate(vecs):
